@@ -241,25 +241,27 @@ theorem C15_float_abs (f : Fl) : absFilter .new (.sc (.flt f)) [] = .ok (fltV (f
 
 /-- **floor**: for an operand that reads as a double `q/2^1074` within the 64-bit range the
 result is the integer `r` with `r ≤ f < r + 1`. -/
-theorem C15_floor (x : Sc) (b : Nat) (q : Int) (hx : x.toFloatBits? = some b) (hq : fv b = .fin q)
+theorem C15_floor (x : Sc) (b : Nat) (q : Int) (hni : x.toInteger? = none)
+    (hx : x.toFloatBits? = some b) (hq : fv b = .fin q)
     (hlo : i64Min * fUnit ≤ q) (hhi : q ≤ i64Max * fUnit) :
     ∃ r : Int, toI64Filter floorQ (.sc x) [] = .ok (intV r) ∧ r * fUnit ≤ q ∧ q < (r + 1) * fUnit := by
   have hr := floorQ_range q hlo hhi
   refine ⟨floorQ q, ?_, floor_spec q fUnit fUnit_pos⟩
-  simp [toI64Filter, V.asScalar?, hx, fToI64, hq, satI64_of_in _ hr.1 hr.2]
+  simp [toI64Filter, V.asScalar?, hni, hx, fToI64, hq, satI64_of_in _ hr.1 hr.2]
 
 /-- **ceil**: `r − 1 < f ≤ r`. -/
-theorem C15_ceil (x : Sc) (b : Nat) (q : Int) (hx : x.toFloatBits? = some b) (hq : fv b = .fin q)
+theorem C15_ceil (x : Sc) (b : Nat) (q : Int) (hni : x.toInteger? = none)
+    (hx : x.toFloatBits? = some b) (hq : fv b = .fin q)
     (hlo : i64Min * fUnit ≤ q) (hhi : q ≤ i64Max * fUnit) :
     ∃ r : Int, toI64Filter ceilQ (.sc x) [] = .ok (intV r) ∧ (r - 1) * fUnit < q ∧ q ≤ r * fUnit := by
   have hr := ceilQ_range q hlo hhi
   refine ⟨ceilQ q, ?_, ceil_spec q fUnit fUnit_pos⟩
-  simp [toI64Filter, V.asScalar?, hx, fToI64, hq, satI64_of_in _ hr.1 hr.2]
+  simp [toI64Filter, V.asScalar?, hni, hx, fToI64, hq, satI64_of_in _ hr.1 hr.2]
 
 /-- **round** (no argument, or a decimal-places argument `n ≤ 0`): the nearest integer,
 `|f − r| ≤ 1/2`, and on a tie the one away from zero. -/
 theorem C15_round (ops : FloatOps) (x : Sc) (b : Nat) (q : Int) (args : List V)
-    (hargs : args = [] ∨ ∃ n : Int, n ≤ 0 ∧ args = [intV n])
+    (hargs : args = [] ∨ ∃ n : Int, n ≤ 0 ∧ args = [intV n]) (hni : x.toInteger? = none)
     (hx : x.toFloatBits? = some b) (hq : fv b = .fin q)
     (hlo : i64Min * fUnit ≤ q) (hhi : q ≤ i64Max * fUnit) :
     ∃ r : Int, roundFilter ops (.sc x) args = .ok (intV r) ∧
@@ -269,9 +271,10 @@ theorem C15_round (ops : FloatOps) (x : Sc) (b : Nat) (q : Int) (args : List V)
   refine ⟨roundQ q, ?_, ?_⟩
   · rcases hargs with h | ⟨n, hn, h⟩
     · subst h
-      simp [roundFilter, roundGo, V.asScalar?, hx, fToI64, hq, satI64_of_in _ hr.1 hr.2]
+      simp [roundFilter, roundGo, V.asScalar?, hni, hx, fToI64, hq, satI64_of_in _ hr.1 hr.2]
     · subst h
-      simp [roundFilter, roundGo, intV, V.asScalar?, Sc.toInteger?, hx, fToI64, hq, satI64_of_in _ hr.1 hr.2, hn]
+      have hint : (Sc.int n).toInteger? = some n := rfl
+      simp [roundFilter, roundGo, intV, V.asScalar?, hint, hni, hx, fToI64, hq, satI64_of_in _ hr.1 hr.2, hn]
   · unfold roundQ
     split
     · rename_i h0
@@ -295,8 +298,30 @@ theorem C15_floor_ceil_round (ops : FloatOps) (f : Fl) (q : Int) (hq : fv f.bits
       (2 * (q - r * fUnit) = fUnit → q < 0) ∧ (2 * (q - r * fUnit) = -fUnit → 0 ≤ q)) := by
   have h1 : i64Min * fUnit ≤ q := hlo
   have h2 : q ≤ i64Max * fUnit := float_range f.bits q hq hhi
-  exact ⟨C15_floor (.flt f) f.bits q rfl hq h1 h2, C15_ceil (.flt f) f.bits q rfl hq h1 h2,
-    C15_round ops (.flt f) f.bits q [] (Or.inl rfl) rfl hq h1 h2⟩
+  exact ⟨C15_floor (.flt f) f.bits q rfl rfl hq h1 h2, C15_ceil (.flt f) f.bits q rfl rfl hq h1 h2,
+    C15_round ops (.flt f) f.bits q [] (Or.inl rfl) rfl rfl hq h1 h2⟩
+
+/-- **A whole number is its own floor, ceiling and rounding** — for every 64-bit integer and every
+string that spells one, also beyond 2^53 where `f64` cannot represent it (after the `fix:` commit;
+the filters used to convert every input to `f64` first: `9223372036854775806 | floor` printed
+`9223372036854775807`). -/
+theorem C15_whole_fixed (ops : FloatOps) (x : Sc) (i : Int) (hi : x.toInteger? = some i) :
+    toI64Filter floorQ (.sc x) [] = .ok (intV i) ∧ toI64Filter ceilQ (.sc x) [] = .ok (intV i) ∧
+    roundFilter ops (.sc x) [] = .ok (intV i) ∧
+    (∀ n : Int, n ≤ 0 → roundFilter ops (.sc x) [intV n] = .ok (intV i)) := by
+  refine ⟨?_, ?_, ?_, ?_⟩
+  · simp [toI64Filter, V.asScalar?, hi]
+  · simp [toI64Filter, V.asScalar?, hi]
+  · simp [roundFilter, roundGo, V.asScalar?, hi]
+  · intro n hn
+    have hint : (Sc.int n).toInteger? = some n := rfl
+    simp [roundFilter, roundGo, intV, V.asScalar?, hint, hi, hn]
+
+example (ops : FloatOps) : toI64Filter floorQ (.sc (.int 9223372036854775806)) [] = .ok (intV 9223372036854775806) ∧
+    roundFilter ops (.sc (.str "9007199254740993".toList)) [] = .ok (intV 9007199254740993) := by
+  constructor
+  · rfl
+  · exact (C15_whole_fixed ops _ 9007199254740993 (by decide)).2.2.1
 
 /-- Outside the 64-bit range the cast saturates, NaN becomes 0 — still a value, never a crash. -/
 theorem C15_round_saturates (mode : Int → Int) (b : Nat) :
